@@ -518,6 +518,32 @@ def element_case(ctx, vocab, kind, mode, store, flavour, case_seed):
                           dict(case, victim=p, expected=SG.short(expected.get(p)), observed=SG.short(now[p]),
                                trace=[t[:2] for t in trace][-12:]))
     expected = now
+    # set again: a property that already holds a value gets another one (True -> False, long -> short, ...)
+    again = [g for g in steps if all(p not in SG.IDENTITY for p in g)]
+    rng.shuffle(again)
+    for grp in again[:3]:
+        vals = {p: SG.generator_for(kind, p)(rng) for p in grp}
+        for p in grp:
+            if isinstance(expected.get(p), bool) and isinstance(vals[p], bool):
+                vals[p] = not expected[p]
+        ref = reference(kind, vals)
+        try:
+            if len(grp) == 1:
+                el.set_property(grp[0], vals[grp[0]])
+            else:
+                el.set_properties(**vals)
+            for p in grp:
+                ctx.count('clause:set-again-get')
+                got = SG.canon_value(el.get_property(p))
+                if not SG.G_typed_equal(got, ref[p]):
+                    ctx.violation(f'C02/set-again-get:{K}.{p}', 'get_property(p) after set_property(p, v) equals v - also when p already '
+                                  'held another value', dict(case, property=p, value_before=SG.short(expected.get(p)),
+                                                             expected=SG.short(ref[p]), observed=SG.short(got)))
+        except Exception as e:
+            ctx.violation(f'C02/set-raises:{K}.{"+".join(grp)}:{type(e).__name__}',
+                          'set_property/get_property with a value the sliver setter accepts must not raise',
+                          dict(case, properties=grp, exception=f'{type(e).__name__}: {str(e)[:300]}', second_write=True))
+    expected = snapshot(topo, el, kind)
     # unset one by one
     dflt = defaults(kind)
     order = [p for g in steps for p in g if p not in SG.IDENTITY and p not in UNSET_EXEMPT]
